@@ -89,6 +89,27 @@ func directedHistories() []struct {
 				roundOf(1, 6, 4, 23*s, nil),
 				roundOf(1, 7, 4, 25*s, nil),
 			}})
+		// found by the thorough tier (the check was wrong, see DESIGN 11.4): the observers that carry the attestation also
+		// vote channel 2 out in the promotion round itself; its adopted validity start is deleted with it, so the
+		// successor's later first report of 2 starts at the successor's own round — not a handover violation
+		goodAndRemove2 := func(_ int, o *obsIn) { o.Att = "good"; o.Removes = []uint32{2} }
+		add("voted-out-in-the-promotion-round", histIn{
+			Cfgs: []instCfg{{F: 1, N: 4, PVer: pver, Interval: iv}, {F: 1, N: 4, PVer: pver, Interval: iv, HasPred: true}},
+			Rounds: []roundIn{
+				roundOf(0, 1, 4, 0, nil),
+				roundOf(1, 1, 4, 0, nil),
+				roundOf(0, 2, 4, 10*s, two),
+				roundOf(1, 2, 4, 10*s, upd(1, jsonDef)),
+				roundOf(0, 3, 4, 12*s, nil),
+				roundOf(1, 3, 4, 12*s, nil),
+				roundOf(0, 4, 4, 14*s, nil),
+				roundOf(0, 5, 4, 16*s, retire),
+				roundOf(0, 6, 4, 18*s, retire),
+				roundOf(1, 4, 4, 19*s, goodAndRemove2),
+				roundOf(1, 5, 4, 21*s, upd(2, jsonDef2)),
+				roundOf(1, 6, 4, 23*s, nil),
+				roundOf(1, 7, 4, 25*s, nil),
+			}})
 		// C05-A / C06-B: a retired successor that keeps receiving the (genuine) attestation and > f votes
 		votes := func(_ int, o *obsIn) {
 			o.Att = "good"
